@@ -62,3 +62,35 @@ Proof. cbv zeta. split; vm_compute; reflexivity. Qed.
 Print Assumptions C12_restore_persist.
 Print Assumptions C12_carry.
 Print Assumptions C12_detached_leaves_nothing.
+
+(* ---------- the state file and the script around it: the order of their parts (read off the template regenerated from /repo) ----------
+   The state file is written in this order: sh options; functions, read under extglob (their bodies may use extended patterns)
+   and before the aliases (which must not be expanded in them once more); bash options; aliases; variables; directory,
+   directory stack; OLDPWD last (the directory changes set it).  The persist function is defined before the carried state is
+   sourced (carried aliases cannot reach into it), and the shell expression comes last. *)
+From SV Require Import ScriptExec.
+Definition N_SET : list N := [10; 32; 32; 32; 32; 32; 32; 32; 32; 115; 101; 116; 32; 43; 111; 10].
+Definition N_EXTGLOB : list N := [10; 32; 32; 32; 32; 32; 32; 32; 32; 101; 99; 104; 111; 32; 34; 115; 104; 111; 112; 116; 32; 45; 115; 32; 101; 120; 116; 103; 108; 111; 98; 34; 10].
+Definition N_FUNS : list N := [10; 32; 32; 32; 32; 32; 32; 32; 32; 100; 101; 99; 108; 97; 114; 101; 32; 45; 102; 10].
+Definition N_SHOPT : list N := [10; 32; 32; 32; 32; 32; 32; 32; 32; 115; 104; 111; 112; 116; 32; 45; 112; 10].
+Definition N_ALIAS : list N := [10; 32; 32; 32; 32; 32; 32; 32; 32; 97; 108; 105; 97; 115; 32; 45; 112; 10].
+Definition N_VARS : list N := [101; 118; 97; 108; 32; 34; 36; 95; 95; 83; 67; 82; 85; 84; 95; 68; 69; 67; 76; 65; 82; 69; 95; 86; 65; 82; 83; 95; 67; 77; 68; 34].
+Definition N_CD : list N := [112; 114; 105; 110; 116; 102; 32; 34; 99; 100; 32; 37; 113].
+Definition N_PUSHD : list N := [112; 114; 105; 110; 116; 102; 32; 34; 112; 117; 115; 104; 100; 32; 37; 113].
+Definition N_OLDPWD : list N := [112; 114; 105; 110; 116; 102; 32; 34; 79; 76; 68; 80; 87; 68; 61; 37; 113].
+Definition N_SOURCE : list N := [115; 111; 117; 114; 99; 101; 32; 34; 36; 95; 95; 83; 67; 82; 85; 84; 95; 84; 69; 77; 80; 95; 83; 84; 65; 84; 69; 95; 80; 65; 84; 72; 47; 115; 116; 97; 116; 101; 34].
+Definition N_TRAPDEF : list N := [102; 117; 110; 99; 116; 105; 111; 110; 32; 95; 95; 115; 99; 114; 117; 116; 95; 112; 101; 114; 115; 105; 115; 116; 95; 115; 116; 97; 116; 101; 32; 123].
+Definition N_EXPR : list N := [123; 115; 104; 101; 108; 108; 95; 101; 120; 112; 114; 101; 115; 115; 105; 111; 110; 125].
+Definition at_ (needle : list N) : option nat := find_sub needle template.
+Definition ordered (l : list (option nat)) : bool :=
+  (fix go (prev : option nat) (l : list (option nat)) : bool :=
+     match l with
+     | [] => true
+     | None :: _ => false
+     | Some k :: r => match prev with Some p => Nat.ltb p k && go (Some k) r | None => go (Some k) r end
+     end) None l.
+Theorem C12_state_file_order :
+  ordered [at_ N_TRAPDEF; at_ N_SET; at_ N_EXTGLOB; at_ N_FUNS; at_ N_SHOPT; at_ N_ALIAS; at_ N_VARS; at_ N_CD; at_ N_PUSHD; at_ N_OLDPWD;
+           at_ N_SOURCE; at_ N_EXPR] = true.
+Proof. vm_compute. reflexivity. Qed.
+Print Assumptions C12_state_file_order.
